@@ -581,6 +581,16 @@ func (e *Engine) constGlobalLen(g *ssa.Global) (int64, bool) {
 	return res, res >= 0
 }
 
+// isLockPointer: *sync.Mutex or *sync.RWMutex
+func isLockPointer(t types.Type) bool {
+	p, ok := t.Underlying().(*types.Pointer)
+	if !ok {
+		return false
+	}
+	n, ok := p.Elem().(*types.Named)
+	return ok && n.Obj().Pkg() != nil && n.Obj().Pkg().Path() == "sync" && (n.Obj().Name() == "Mutex" || n.Obj().Name() == "RWMutex")
+}
+
 func (e *Engine) store(s *State, a *Addr, v *Val, in ssa.Instruction) {
 	t := a.T
 	if a.K == ALocal {
@@ -588,6 +598,22 @@ func (e *Engine) store(s *State, a *Addr, v *Val, in ssa.Instruction) {
 		return
 	}
 	ls := e.leaves(t)
+	if len(ls) == 1 && len(v.L) == 0 && v.A != nil && v.A.K == AField && isLockPointer(t) {
+		// the address of a mutex field kept in another object (a lock shared by pointer): locks have no
+		// modelled content, so the pointer only needs an identity - faddr(field, object)
+		if e.fieldIDs == nil {
+			e.fieldIDs = map[string]int{}
+		}
+		fk := v.A.SKey + v.A.Path
+		id, ok := e.fieldIDs[fk]
+		if !ok {
+			id = len(e.fieldIDs) + 1
+			e.fieldIDs[fk] = id
+		}
+		term := app("faddr", num(int64(id)), v.A.Base)
+		s.assume(app(">", term, "0"))
+		v = &Val{L: []string{term}, NN: true}
+	}
 	if len(ls) != len(v.L) {
 		e.unsupportedf("store arity mismatch for %s: %d vs %d", t, len(ls), len(v.L))
 	}
